@@ -4,6 +4,16 @@ import json, os, subprocess
 V = os.path.dirname(os.path.dirname(os.path.abspath(__file__)))
 
 CLAIMED = {
+    "C01": dict(
+        text="Executable Lean 4 model of the RPU parser and writer (lean/DoviModel/Model/Rpu.lean, RpuWrite.lean, transliterated separately from the Rust parse and write functions) with kernel-checked theorems about it; the model is tied to the real code on every run by running both on the same structured, mutated and prefixed RPUs (parse JSON and unmodified write, raw and NAL entry points) and the property itself is evaluated directly on the real code for every case (write(parse x) in {x, error}).",
+        note="Trusted: Lean kernel, the correspondence harness, the independent encoder used as generator. Hypothesis named in the theorems: se(v) code numbers < 2^53 (third-party get_se goes through f64). CLI-level clause is covered by C05/C09.",
+        design="DESIGN.md section 7 C01",
+        technique="Lean 4 proof over a hand-written model + differential model/implementation correspondence + direct oracle"),
+    "C02": dict(
+        text="The real parser's serde JSON (what info -f / export print) is compared field for field with the JSON derived from the syntax values chosen by an independent encoder written from the syntax table, and with the Lean model's JSON; the profile/EL classification rules are Lean theorems about the model (profile_table, profile_range, el_type_rule).",
+        note="Trusted: the syntax table (Appendix B / vlib/specgen.py) as the statement of the bitstream syntax; Lean kernel; correspondence harness.",
+        design="DESIGN.md section 7 C02",
+        technique="Lean 4 proof (classification table) + independent reference encoder + model/implementation correspondence"),
     "C13": dict(
         text="Lean 4 theorems over the executable model of add/clear_start_code_emulation_prevention_3_byte and of the start-code scan: unesc(esc p) = p for every payload with non-zero first byte, no 00 00 0[0-2] in the escaped form, every 00 00 03 is an inserted byte, a written NAL contains no start code, a written file re-splits to exactly the written units (any mixture of 3/4-byte start codes). The model is tied to the real functions exhaustively over the alphabet of the property (length <= 8 quick, <= 10 thorough) plus line-mode cases; the direct oracle runs on the real code.",
         note="Trusted: Lean kernel; model/real-code tie is differential (exhaustive over the stated alphabet, sampled beyond); hevc_parser's splitter is modelled (validated in the C05 correspondence).",
